@@ -5,6 +5,7 @@ import (
 	"fmt"
 	"hash/fnv"
 	"io"
+	"os"
 	"os/exec"
 	"sort"
 	"strconv"
@@ -248,6 +249,11 @@ type Solver struct {
 	out   *bufio.Reader
 	Stats Stats
 	cache map[uint64]cached
+	icache    map[string]cached
+	sess      *Ctx
+	declared  map[string]bool
+	defined   map[int]bool
+	inited    bool
 	LastError string
 	Dump  io.Writer // if non-nil, every script is copied here
 }
@@ -275,6 +281,11 @@ func CommandLine(kind string) string { return strings.Join(solverArgv(kind), " "
 
 func StartSolver(kind string) (*Solver, error) {
 	s := &Solver{Kind: kind, cache: map[uint64]cached{}}
+	if p := os.Getenv("GOSMT_DUMP"); p != "" {
+		if f, err := os.OpenFile(fmt.Sprintf("%s.%d", p, os.Getpid()), os.O_CREATE|os.O_APPEND|os.O_WRONLY, 0o644); err == nil {
+			s.Dump = f
+		}
+	}
 	if err := s.start(); err != nil {
 		return nil, err
 	}
@@ -312,6 +323,7 @@ func (s *Solver) Close() {
 func (s *Solver) restart() {
 	s.Close()
 	s.start()
+	s.declared, s.defined, s.inited = map[string]bool{}, map[int]bool{}, false
 }
 
 func (s *Solver) readLine(deadline time.Time) (string, bool) {
@@ -337,7 +349,7 @@ func (s *Solver) readLine(deadline time.Time) (string, bool) {
 
 // Check decides the conjunction of asserts. timeout applies to the solver's
 // own limit; a hard wall limit of 2x+5s restarts the process.
-func (s *Solver) Check(c *Ctx, asserts []*Term, wantModel bool, timeout time.Duration) (Result, Model) {
+func (s *Solver) CheckReset(c *Ctx, asserts []*Term, wantModel bool, timeout time.Duration) (Result, Model) {
 	for _, a := range asserts {
 		if a.IsFalse() {
 			return Unsat, nil
